@@ -270,6 +270,7 @@ inductive Tamper
   | rawAddStamp (p v : String)
   | setLinkURL (i : Nat) (u : String)
   | dropLink (i : Nat)
+  | rawAddLink (k u : String)
   | setTag (i : Nat) (t : String)
   | dropTag (i : Nat)
   | dropMeta (k : String)
@@ -285,6 +286,7 @@ def Header.tamper (h : Header) : Tamper → Header
   | .rawAddStamp p v => { h with stamps := h.stamps ++ [⟨p, v⟩] }
   | .setLinkURL i u => { h with links := modifyAt (fun l => { l with url := u }) i h.links }
   | .dropLink i => { h with links := h.links.eraseIdx i }
+  | .rawAddLink k u => { h with links := h.links ++ [{ key := k, url := u }] }
   | .setTag i t => { h with tags := modifyAt (fun _ => t) i h.tags }
   | .dropTag i => { h with tags := h.tags.eraseIdx i }
   | .dropMeta k => { h with metas := h.metas.filter (fun kv => kv.1 != k) }
